@@ -268,6 +268,35 @@ def anyof_pair_cases(rng, limit=None):
     return cases
 
 
+def anyof_optional_cases(rng, limit=None):
+    """AnyOf over TWO distinguishable non-None options and None (Optional[Union[A, B]]), None listed last / first /
+    in the middle, the field left optional, holding a value of either option: the value must be serialized by the
+    option it belongs to (not by whichever non-None option happens to be listed last)"""
+    vg = gen.ValGen(rng)
+    none = {"k": "noneF"}
+    pairs = [(a, b) for a in ANYOF_CATALOGUE for b in ANYOF_CATALOGUE
+             if a is not b and a["k"] != "noneF" and b["k"] != "noneF"
+             and distinguishable({"k": "anyOf", "fields": [a, b]})]
+    if limit is not None and len(pairs) > limit:
+        pairs = rng.sample(pairs, limit)
+    cases = []
+    for pi, (a, b) in enumerate(pairs):
+        for where in (2, 0, 1):
+            opts3 = [copy.deepcopy(a), copy.deepcopy(b)]
+            opts3.insert(where, dict(none))
+            cls = {"k": "struct", "name": f"AO{pi}_{where}", "required": ["g"], "addl": False,
+                   "fields": [["f", {"k": "anyOf", "fields": opts3}], ["g", {"k": "integer"}]]}
+            C.fix_accepts(cls)
+            for opt in (a, b):
+                v = vg.valid(opt)
+                if v is gen.NOVALUE or v is None:
+                    continue
+                kw = [["f", v], ["g", 1]]
+                cases.append({"suite": "serde", "mode": "roundtrip", "stream": "anyof-optional", "cls": cls, "kw": kw,
+                              "opts": {"keepUndefined": False, "ignoreInvalidAddl": False}, "re": gen.re_table(cls, kw)})
+    return cases
+
+
 def gen_cases(rng, tier, n_classes, lossy=0.2):
     cases = anyof_pair_cases(random.Random(str(rng.getstate()[1][0])))   # own stream: the main one is not shifted
     for ci in range(n_classes):
@@ -510,6 +539,11 @@ def tags(case, impl, model):
         if key in impl:
             out.append(f"{key}:" + ("ok" if "ok" in impl[key] else impl[key]["err"]))
     out.append("fragment:" + str(in_fragment(case["cls"])))
+    m = (model or {}).get("out") or {}
+    if "inFrag" in m:
+        out.append("proved-fragment(class_round_trip_partial | class_round_trip_extras_partial):" + str(bool(m["inFrag"] or m.get("inFragExtras"))))
+    if "exactDecl" in m:
+        out.append("proved-fragment(deserialize_exact_partial):" + str(m["exactDecl"]))
     out.append("model-scope:" + str(in_model_scope(case["cls"])))
     return out
 
